@@ -243,6 +243,13 @@ func runC17(r *Run) {
 		lim0 := 1 + t.Intn(2, "limiter-limit")
 		st := strategy.NewSimpleStrategyWithMetricRegistry(lim0, qr)
 		dl, _ := limiter.NewDefaultLimiter(limit.NewAIMDLimit("aimd", lim0, 0.9, 1, qr), 1, 1, 0, 10, st, nopLogger{}, qr)
+		// the sample window is one completion from closing: the next success updates nextUpdateTime and the limit
+		for i := 0; i < 10; i++ {
+			if ls, ok := dl.Acquire(bg); ok {
+				time.Sleep(time.Nanosecond)
+				ls.OnSuccess()
+			}
+		}
 		var l core.Limiter = dl
 		switch which {
 		case 1:
